@@ -61,11 +61,23 @@ func splitConj(t *Term, out *[]*Term) {
 // with candidates that share one of their own contexts (pattern-directed instantiation);
 // skolem constants and hint terms ("<type>|sk") are always used.
 
+// regionCtx (hint "regionctx"): the pattern context of an index into a heap region also names the
+// region, so that a quantifier over the elements of one slice is instantiated with the indices
+// used on THAT slice only (functions juggling several slices of the same element type).
+var regionCtx bool
+
 func arrayBase(a *Term) string {
+	region := ""
 	for {
 		a = unmark(a)
 		switch a.Op {
 		case "store", "select":
+			if regionCtx && a.Op == "select" && region == "" && a.S.IsArr() && a.Args[1].S == RegSort {
+				region = "@" + unmark(a.Args[1]).String()
+				if len(region) > 80 {
+					region = region[:80]
+				}
+			}
 			a = a.Args[0]
 			continue
 		case "var", "app":
@@ -73,7 +85,7 @@ func arrayBase(a *Term) string {
 			if k := strings.IndexAny(n, "@!"); k >= 0 {
 				n = n[:k]
 			}
-			return n
+			return n + region
 		case "ite":
 			a = a.Args[1]
 			continue
@@ -477,6 +489,11 @@ func (w *World) Prepare(o *Obligation, lemmaMax int) ([]*Term, *prep) {
 	hints := o.Hints
 	if hints == nil {
 		hints = &Hints{Reveal: map[string]bool{}}
+	}
+	if regionCtx != hints.RegionCtx {
+		regionCtx = hints.RegionCtx
+		bvCtxCache = map[*Term]map[*Term][]string{}
+		bvShiftCache = map[*Term]map[*Term][]bshift{}
 	}
 	fuel := 1
 	if hints.Fuel > 0 {
